@@ -353,6 +353,19 @@ type wstate struct {
 	done     chan error
 	lastProg time.Time
 	lastIdx  int64
+	tmp      string
+}
+
+// scratchBase prefers a memory-backed directory for the workers' private TMPDIR (spill files,
+// scratch repositories); everything in it is created and removed by the run itself.
+func scratchBase(work string) string {
+	if st, err := os.Stat("/dev/shm"); err == nil && st.IsDir() {
+		d := fmt.Sprintf("/dev/shm/verif-%d", os.Getpid())
+		if os.MkdirAll(d, 0755) == nil {
+			return d
+		}
+	}
+	return work
 }
 
 func runWorkers(chk *Check, h *Harness, tier, work string) (*Result, int, error) {
@@ -391,8 +404,11 @@ func runWorkers(chk *Check, h *Harness, tier, work string) (*Result, int, error)
 		if procs == 0 {
 			procs = 2
 		}
-		cmd.Env = append(os.Environ(), "GOMAXPROCS="+strconv.Itoa(procs), "TMPDIR="+filepath.Join(work, fmt.Sprintf("tmp%d", ws.shard)))
-		os.MkdirAll(filepath.Join(work, fmt.Sprintf("tmp%d", ws.shard)), 0755)
+		tmp := filepath.Join(scratchBase(work), fmt.Sprintf("%s-%s-tmp%d", chk.ID, h.Name, ws.shard))
+		os.RemoveAll(tmp)
+		os.MkdirAll(tmp, 0755)
+		ws.tmp = tmp
+		cmd.Env = append(os.Environ(), "GOMAXPROCS="+strconv.Itoa(procs), "TMPDIR="+tmp)
 		lf, _ := os.Create(ws.out + ".log")
 		cmd.Stdout = lf
 		cmd.Stderr = lf
@@ -464,6 +480,12 @@ func runWorkers(chk *Check, h *Harness, tier, work string) (*Result, int, error)
 			}
 		}
 	}
+	for _, ws := range states {
+		if ws.tmp != "" {
+			os.RemoveAll(ws.tmp)
+		}
+	}
+	os.Remove(fmt.Sprintf("/dev/shm/verif-%d", os.Getpid()))
 	// merge
 	res := NewResult()
 	res.Done = true
